@@ -152,6 +152,13 @@ var required = []struct{ name, typ string }{
 	{"richSizeGuards", "L"}, {"richSizeSoftStrict", "B"}, {"richSizeHardStrict", "B"},
 	{"richDrawHardGuards", "L"}, {"richDrawHardStrict", "F"}, {"richDrawSoftGuards", "L"}, {"richDrawSoftStrict", "F"},
 	{"centerFacts", "L"}, {"textFieldFacts", "L"},
+	// round 2 (skeleton.go)
+	{"sizeFields", "L"}, {"relativePointFields", "L"}, {"subSurfaceFields", "L"},
+	{"runRenderWin", "S"}, {"runRenderClipsRoot", "B"}, {"runFrame", "L"}, {"hookRenderRootWin", "S"}, {"hookRenderWin", "S"},
+	{"renderBody", "L"}, {"drawWidgets", "L"}, {"boundedGuards", "P"}, {"boundedPanicWidgets", "L"}, {"newSurfaceArgs", "P"},
+	{"buttonDrawBody", "L"}, {"centerDrawBody", "L"}, {"richtextDrawBody", "L"}, {"richtextDrawSoftwrapBody", "L"},
+	{"richtextFindContainerSizeBody", "L"}, {"textDrawBody", "L"}, {"textDrawSoftwrapBody", "L"}, {"textFindContainerSizeBody", "L"},
+	{"textfieldDrawBody", "L"}, {"dynamicChildCtx", "L"},
 }
 
 func gen(c *ex.Ctx) {
@@ -168,6 +175,8 @@ func gen(c *ex.Ctx) {
 			fmt.Fprintf(&sb, "def %s : List String := [\"?unrecognised\"]\n", r.name)
 		case "S":
 			fmt.Fprintf(&sb, "def %s : String := \"?unrecognised\"\n", r.name)
+		case "P":
+			fmt.Fprintf(&sb, "def %s : List (String × String) := [(\"?unrecognised\", \"?unrecognised\")]\n", r.name)
 		case "B":
 			fmt.Fprintf(&sb, "def %s : Bool := true\n", r.name)
 		case "F":
@@ -180,6 +189,7 @@ func gen(c *ex.Ctx) {
 }
 
 func genBody(c *ex.Ctx, sbp *strings.Builder) {
+	defer genRound2(c, sbp)
 	vx := c.Parse("vxfw/vxfw.go")
 	txt := c.Parse("vxfw/text/text.go")
 	rich := c.Parse("vxfw/richtext/richtext.go")
